@@ -69,11 +69,11 @@ class VideoDownloadableMediaMessageProtocolEntity(DownloadableMediaMessageProtoc
 
     @property
     def gif_attribution(self):
-        return self.proto.gif_attribution
+        return self.media_specific_attributes.gif_attribution
 
     @gif_attribution.setter
     def gif_attribution(self, value):
-        self.media_specific_attributes.gif_attributions = value
+        self.media_specific_attributes.gif_attribution = value
 
     @property
     def streaming_sidecar(self):
